@@ -85,6 +85,14 @@ pub const EXPR_ERRORS: &[(&str, &str)] = &[
 /// statements that fail
 pub const STMT_ERRORS: &[(&str, &str)] = &[
     ("redeclaration", "x_ := 1\nx_ := 2\n"),
+    ("printing half a character", "hc_ := \"é\"\nprint(hc_[0])\n"),
+    ("printing half a character cut by a range", "hc_ := \"a€b\"\nprint(hc_[0:2])\n"),
+    ("printing half a character from an iteration", "for hc_ in \"é\" {\nprint(hc_[1])\n}\n"),
+    ("name repeated in the pattern of a single parameter", "fn s_([a_, a_]) {\n}\n"),
+    ("literal as the single parameter", "fn s_(1) {\n}\n"),
+    ("element as the single parameter", "fn s_(xs[0]) {\n}\n"),
+    ("spread inside the pattern of a single parameter", "fn s_([xs..]) {\n}\n"),
+    ("name repeated in the object pattern of a single parameter", "fn s_({\"a\": k_, \"b\": k_}) {\n}\n"),
     ("failure at the bottom of a direct recursion", "fn rec_(n) {\nif n == 0 {\nreturn undef_r\n}\nreturn rec_(n - 1)\n}\nrec_(3)\n"),
     ("failure at the bottom of a mutual recursion", "fn ev_(n) {\nif n == 0 {\nreturn 1 / 0\n}\nreturn od_(n - 1)\n}\nfn od_(n) {\nreturn ev_(n - 1)\n}\nev_(4)\n"),
     ("failure twelve calls deep", "fn deep_(n) {\nif n == 0 {\nreturn xs[9]\n}\nreturn 1 + deep_(n - 1)\n}\ndeep_(12)\n"),
